@@ -82,7 +82,7 @@ func (v *inputFieldDefaultInjectionVisitor) recursiveInjectInputFields(inputObje
 		isTypeScalarOrEnum := v.isScalarTypeOrExtension(valDef.Type, v.definition)
 		hasDefault := valDef.DefaultValue.IsDefined
 
-		varVal, _, _, err := jsonparser.Get(varValue, fieldName)
+		varVal, varValType, _, err := jsonparser.Get(varValue, fieldName)
 		if err != nil && !errors.Is(err, jsonparser.KeyPathNotFoundError) {
 			v.StopWithInternalErr(err)
 			return nil, false, err
@@ -90,6 +90,12 @@ func (v *inputFieldDefaultInjectionVisitor) recursiveInjectInputFields(inputObje
 		existsInVal := !errors.Is(err, jsonparser.KeyPathNotFoundError)
 
 		if !isTypeScalarOrEnum {
+			if existsInVal && varValType != jsonparser.Object && varValType != jsonparser.Array && varValType != jsonparser.Null {
+				// a single value where a list is declared (list coercion) or a mismatching type:
+				// there is nothing to inject into a scalar, and jsonparser.Get has already
+				// unquoted strings, so the value is no longer valid JSON to recurse into
+				continue
+			}
 			var valToUse []byte
 			if existsInVal {
 				valToUse = varVal
